@@ -103,7 +103,8 @@ def c01():
     import suite_hist
     return {
         "props_file": "Props/C01.v",
-        "theorems": ["C01_partition", "C01_every_step", "C01_failed_fit", "C01_nonvacuous"],
+        "theorems": ["C01_partition", "C01_every_step", "C01_failed_fit", "C01_nonvacuous",
+                     "C01_labels", "C01_labels_partition", "C01_refine_labels", "C01_labels_nonvacuous"],
         "suites": [suite_hist.suite_hist_api, suite_hist.suite_exhaustive],
         "search": suite_hist.search_hist("C01"),
         "replay": suite_hist.replay_hist("C01"),
@@ -224,7 +225,7 @@ def c04():
     import suite_forms
     return {
         "props_file": "Props/C04.v",
-        "theorems": ["C04_release_safe", "C04_no_release_when_disabled", "C04_source_tie",
+        "theorems": ["C04_release_safe", "C04_no_release_when_disabled", "C04_source_tie", "C04_source_tie_ctor", "C04_source_tie_ctor_other",
                      "C04_chunks", "C04_run_chunks", "C04_packed_form", "C04_function",
                      "C04_release_example"],
         "model_files": ["Model/Obs.v", "Model/Mem.v"],
